@@ -31,6 +31,22 @@ pub mod net {
 
     static CONNECTOR: Mutex<Option<Connector>> = Mutex::new(None);
 
+    /// Set by the harness at the instant the (simulated) process exits: whatever tasks are still
+    /// around after that cannot put another byte on a socket, just as after a real `exit()`.
+    static PROCESS_GONE: std::sync::atomic::AtomicBool = std::sync::atomic::AtomicBool::new(false);
+
+    pub fn set_process_gone() {
+        PROCESS_GONE.store(true, std::sync::atomic::Ordering::SeqCst);
+    }
+
+    fn gone() -> Option<io::Error> {
+        if PROCESS_GONE.load(std::sync::atomic::Ordering::SeqCst) {
+            Some(io::Error::new(io::ErrorKind::BrokenPipe, "process exited"))
+        } else {
+            None
+        }
+    }
+
     /// Install the function consulted by every outgoing connection.
     pub fn set_connector(c: Connector) {
         *CONNECTOR.lock().unwrap() = Some(c);
@@ -79,6 +95,9 @@ pub mod net {
 
         /// Non-blocking write, as `tokio::net::TcpStream::try_write`.
         pub fn try_write(&mut self, buf: &[u8]) -> io::Result<usize> {
+            if let Some(e) = gone() {
+                return Err(e);
+            }
             let waker = futures::task::noop_waker();
             let mut cx = Context::from_waker(&waker);
             match Pin::new(&mut self.inner).poll_write(&mut cx, buf) {
@@ -104,6 +123,9 @@ pub mod net {
             cx: &mut Context<'_>,
             buf: &[u8],
         ) -> Poll<io::Result<usize>> {
+            if let Some(e) = gone() {
+                return Poll::Ready(Err(e));
+            }
             Pin::new(&mut self.inner).poll_write(cx, buf)
         }
 
